@@ -71,7 +71,14 @@ class Key:
             octave, pitch = divmod(note, self.scale.octave_size)
             nearest_semitone = None
             nearest_distance = None
-            for semitone in self.semitones + [self.scale.octave_size]:
+            #--------------------------------------------------------------------------------
+            # The nearest note may lie across an octave boundary: also consider the
+            # lowest pitch class of the octave above and the highest of the octave below.
+            #--------------------------------------------------------------------------------
+            semitones = self.semitones
+            candidates = semitones + [semitones[0] + self.scale.octave_size,
+                                      semitones[-1] - self.scale.octave_size]
+            for semitone in candidates:
                 distance = abs(semitone - pitch)
                 if nearest_distance is None or distance < nearest_distance:
                     nearest_semitone = semitone
